@@ -80,6 +80,10 @@ func (g *Gen) concHeavy(n int) {
 				g.oneOfClause([]Clause{{K: "leaf", Col: toBS("S"), CmpK: "str", Cmp: "like", Arg: &Val{T: "string", S: toBS("(%")}},
 					{K: "leaf", Col: toBS("nosuch"), CmpK: "str", Cmp: "=", Arg: &Val{T: "int", I: 1}}, {K: "leaf", Col: toBS("A"), CmpK: "str", Cmp: "bogus", Arg: &Val{T: "int", I: 1}}})}}
 			return Step{Op: "Filter", Recv: f, Clause: &cl}
+		case 8: // an And whose first sub clause keeps every row: the intermediate result is the receiver itself
+			cl := Clause{K: "and", Subs: []Clause{{K: "leaf", Col: toBS("A"), CmpK: "str", Cmp: ">=", Arg: &Val{T: "int", I: -1000000}},
+				{K: "leaf", Col: toBS("A"), CmpK: "str", Cmp: g.oneOf([]string{"<", ">", "!="}), Arg: &Val{T: "int", I: int64(g.rng.Intn(5) - 2)}}}}
+			return Step{Op: "Filter", Recv: g.oneOf2(f, f0), Clause: &cl}
 		case 7: // ... next to plain valid ones
 			cl := Clause{K: "leaf", Col: toBS("A"), CmpK: "str", Cmp: g.oneOf([]string{"<", ">=", "="}), Arg: &Val{T: "int", I: int64(g.rng.Intn(5) - 2)}}
 			return Step{Op: "Filter", Recv: g.oneOf2(f, f0), Clause: &cl}
@@ -104,13 +108,16 @@ func (g *Gen) concHeavy(n int) {
 		g.do(mk(6))
 		g.do(mk(7))
 	}
-	for batch := 0; batch < 7; batch++ {
+	for batch := 0; batch < 8; batch++ {
 		subs := []Step{}
 		focus := batch // most goroutines of a batch do the same kind of thing; every kind gets its batch
 		for j := 0; j < 8; j++ {
 			k := focus
 			if batch == 6 {
 				k = 6 + (j/2)%2
+			}
+			if batch == 7 {
+				k = []int{8, 8, 4, 2, 0, 8, 3, 4}[j] // the And filters next to readers of the same index
 			}
 			if g.rng.Intn(4) == 0 {
 				k = g.rng.Intn(6)
